@@ -2,8 +2,9 @@ import PartituraModel.Wire
 import PartituraModel.Model.Durations
 import PartituraModel.Model.Measures
 import PartituraModel.Model.Rests
+import PartituraModel.Model.Tuplets
 
-open Wire Model Model.Dur Model.Meas Model.Rests
+open Wire Model Model.Dur Model.Meas Model.Rests Model.Tup
 
 def fmtSym (sd : Gen.SymDur) : String :=
   fmtTuple [sd.1, fmtNat sd.2.1, fmtOpt fmtNat sd.2.2.1, fmtOpt fmtNat sd.2.2.2]
@@ -91,8 +92,22 @@ def fmtAdded (out : Option (List GNote)) : String :=
   | some l => fmtList (fun n => fmtTuple [fmtRat n.start, fmtRat n.stop, fmtInt n.voice, fmtInt n.staff,
                                            fmtSymField n.added]) (l.filter (·.added.isSome))
 
+/-- `iter_all(Tuplet)` order: by start time of the first note, creation order within a time point -/
+def sortTuplets (ns : List Note) (l : List (Nat × Nat)) : List (Nat × Nat) :=
+  let startOf := fun (t : Nat × Nat) => match ns.find? (·.key = t.1) with | some n => n.start | none => 0
+  let ins := fun (acc : List (Nat × Nat)) (t : Nat × Nat) =>
+    (acc.takeWhile fun a => startOf a ≤ startOf t) ++ t :: (acc.dropWhile fun a => startOf a ≤ startOf t)
+  l.foldl ins []
+
 def handle (ts : List String) : String :=
   match ts with
+  | "tupl" :: rest =>
+    -- find_tuplets on notes whose symbolic_duration is the stored value (None = no symbolic duration)
+    orErr <| (run (do let p ← parsePart; let ns ← list parseNote; pure (p, ns)) rest).map fun (p, ns) =>
+      let st := findTupletsBy (fun n => n.sym.isNone) p.qd ns
+      fmtTuple [fmtList (fun n => fmtSymField n.sym) st.notes,
+                fmtList (fun t => fmtTuple [fmtRef st.notes (some t.1), fmtRef st.notes (some t.2)])
+                  (sortTuplets st.notes st.tuplets)]
   | "fillm" :: rest =>
     orErr <| (run (do let qd ← list parsePair; let k ← nat; let ms ← list parseSpan; let ns ← list parseGNote
                       pure (qd, k, ms, ns)) rest).map fun (qd, k, ms, ns) => fmtAdded (fillRests qd k ms ns)
